@@ -93,7 +93,7 @@ def replay(case):
     for a, vals in scn['ident'].items():
         if vals:
             key = a.upper() if (scn['upper'] and a == 'mail') else a
-            identity[key] = [VAL[v] for v in sorted(vals)]
+            identity[key] = [VAL[v].encode('utf-8') if scn.get('typed') else VAL[v] for v in sorted(vals)]
     from saml2_tophat.saml import NameID, NAMEID_FORMAT_TRANSIENT
     obs = {'identity': identity, 'paths': {}}
     nid = NameID(format=NAMEID_FORMAT_TRANSIENT, text='subject-1')
@@ -169,7 +169,7 @@ def main():
     cases = sorted(res.cases, key=lambda c: json.dumps(c['scn'], sort_keys=True))
     if chk.tier != 'thorough':
         # every request on a server that has served nobody before, a seeded sample of the ones with a predecessor
-        cases = [c for c in cases if not c['scn']['prev']['served'] or chk.rng.random() < 0.08]
+        cases = [c for c in cases if (not c['scn']['prev']['served'] and (not c['scn']['typed'] or chk.rng.random() < 0.5)) or chk.rng.random() < 0.08]
     some = 0
     for case, obs, err in fw.pmap(replay, cases, init=spc.init_worker, chunk=16):
         if err:
@@ -196,14 +196,14 @@ def main():
                               % (path, over, o['unknown'] or '', json.dumps(scn['ident'], sort_keys=True), scn['policy'], scn['decl'], scn['hasCat']), d2)
             elif case['mustReleaseAll'] and o['outcome'] == 'assertion' and any(sorted(rel[a]) != sorted(case['allowed'][a]) for a in rel):
                 chk.violation(pkey, '%s response: less released than identity and restrictions give although nothing else applies: %s vs %s' % (path, rel, case['allowed']), d2)
-            elif path == 'authn' and any(sorted(rel[a]) != sorted(case['model'][a]) for a in rel):
+            elif path == 'authn' and not scn.get('typed') and any(sorted(rel[a]) != sorted(case['model'][a]) for a in rel):
                 chk.note('drift: released %s, pipeline model %s for %s' % (rel, case['model'], json.dumps(scn, sort_keys=True)))
             chk.sample({'scn': scn, 'path': path, 'allowed': case['allowed'], 'released': rel, 'outcome': o['outcome']}, limit=5)
     if some == 0 and not chk.violations:
         raise fw.Machinery('nothing was ever released: templates broken')
     chk.cov['exhaustive'] = chk.tier == 'thorough'
     chk.cov['rule'] = ('scenarios of IdPRelease.tla, each on a long-lived server that serves twelve kinds of provider and has just served '
-                      'none or one of them (thorough: all 59 904; quick: the 4 608 without predecessor and a seeded 8% of the rest): identity (3 attributes, multi-valued, non-ASCII, upper-case key) x 8 policy '
+                      'none or one of them (thorough: all 62 208; quick: the 4 608 text-valued ones without predecessor, half of the byte-valued ones and a seeded 8% of the rest): identity (3 attributes, multi-valued, non-ASCII, upper-case key) x 8 policy '
                       'shapes (none, names, value pattern, two overlapping value patterns, per-SP entry, per-SP entry falling back to default, entity categories, '
                       'categories + names) x 6 SP declarations (required/optional, value constraints, unsatisfiable) x entity category '
                       'x fail_on_missing_requested')
